@@ -57,6 +57,15 @@ static inline bool is_int_extension_required(TypeId dst_type_id, TypeId src_type
          TypeUtils::size_of(dst_type_id) > TypeUtils::size_of(src_type_id);
 }
 
+//! Tests whether a move from `src_type_id` to `dst_type_id` is a conversion between float and double (scalar or vector).
+static inline bool is_float_conversion_required(TypeId dst_type_id, TypeId src_type_id) noexcept {
+  TypeId dst_scalar_id = TypeUtils::scalar_of(dst_type_id);
+  TypeId src_scalar_id = TypeUtils::scalar_of(src_type_id);
+
+  return (dst_scalar_id == TypeId::kFloat32 && src_scalar_id == TypeId::kFloat64) ||
+         (dst_scalar_id == TypeId::kFloat64 && src_scalar_id == TypeId::kFloat32);
+}
+
 class FuncArgsContext {
 public:
   static inline constexpr uint32_t kVarIdNone = 0xFF;
